@@ -62,6 +62,7 @@ structure Entry where
   exist        : Bool := true    -- `IsExistSwamp`
   keys         : Keys := .ok
   kvNil        : Bool := false
+  keyBad       : Bool := false   -- some treasure key of the entry is empty or longer than 65535 bytes
   incZero      : Bool := false
   opsEmpty     : Bool := false
   metaNil      : Bool := false
@@ -85,7 +86,7 @@ structure Shape where
 inductive Atom where
   | nameEmpty | nameInvalid | notExist | notExistChk
   | keysNil | keysLen0 | keysEmptyNN | key0Empty
-  | kvNil | incZero | opsEmpty | metaNil | patchesEmpty | capErr | bodyCapErr
+  | kvNil | keyInvalid | incZero | opsEmpty | metaNil | patchesEmpty | capErr | bodyCapErr
   | lockKeyEmpty | lockIdEmpty | telemetryOff
   deriving DecidableEq, Repr, Inhabited
 
@@ -174,6 +175,7 @@ def atomEval (cx : Ctx) (e : Entry) : Atom → Option Bool
                      | .firstEmpty => some true
                      | .ok => some false
   | .kvNil        => some e.kvNil
+  | .keyInvalid   => some e.keyBad
   | .incZero      => some e.incZero
   | .opsEmpty     => some e.opsEmpty
   | .metaNil      => some e.metaNil
@@ -349,6 +351,7 @@ def atomOf : String → Option Atom
   | "nameEmpty" => some .nameEmpty | "nameInvalid" => some .nameInvalid | "notExist" => some .notExist
   | "notExistChk" => some .notExistChk | "keysNil" => some .keysNil | "keysLen0" => some .keysLen0
   | "keysEmptyNN" => some .keysEmptyNN | "key0Empty" => some .key0Empty | "kvNil" => some .kvNil
+  | "keyInvalid" => some .keyInvalid
   | "incZero" => some .incZero | "opsEmpty" => some .opsEmpty | "metaNil" => some .metaNil
   | "patchesEmpty" => some .patchesEmpty | "capErr" => some .capErr | "bodyCapErr" => some .bodyCapErr
   | "lockKeyEmpty" => some .lockKeyEmpty | "lockIdEmpty" => some .lockIdEmpty
